@@ -281,3 +281,161 @@ class SlotGraph:
             if c == "0":
                 out.append(("root-linked", "0", "the root slot becomes a child of %s" % par))
         return out
+
+
+# ---------------------------------------------------------------- _retain, bounded sub-tree
+def retain_program(F, height=2, with_context=True, both_grp_sides=False):
+    """PrefixMap::_retain started at an inner node `idx` whose parent and grand-parent exist and are
+    linked as the function's contract says (child(par,par_right)=idx, child(grp,grp_right)=par), over
+    every sub-tree below idx of at most `height` levels (deeper links are absent: bounded-exhaustive)."""
+    path = F.short["PrefixMap::_retain"]
+    params = fn_params(F, path)
+
+    def prog(it):
+        args = {}
+        for nm, ty, sk in params:
+            if nm in ("self", "f"):
+                args[nm] = absint.unknown(it, ty, nm)
+        args["par_right"] = args["grp_right"] = BoolV(False)
+        mp = args["self"]
+        table = it.force(it.force(mp.cell).fields["table"])
+        ar = table.arena
+        idx = absint.SymV("i")
+
+        def some(v):
+            return StructV(OPTION, "Some", {"0": Cell(v, "some")})
+
+        def none():
+            return StructV(OPTION, "None", {})
+        if with_context:
+            g, p = absint.SymV("g"), absint.SymV("p")
+            gr = it.choose("bool:grp_right", [False, True] if both_grp_sides else [False])
+            pr = it.choose("bool:par_right", [False, True])
+            gn, pn = it.force(ar.node(g)), it.force(ar.node(p))
+            gn.fields["right" if gr else "left"].value = some(p)
+            pn.fields["right" if pr else "left"].value = some(idx)
+            it.emit("link_known", table=ar.name, node="g", side="right" if gr else "left", child="p")
+            it.emit("link_known", table=ar.name, node="p", side="right" if pr else "left", child="i")
+            gp, pp, ip = ["%s[%s].prefix" % (ar.name, k) for k in ("g", "p", "i")]
+            it.assume_rel(gp, pp, (absint.SUP, None, None))
+            it.assume_rel(pp, ip, (absint.SUP, None, None))
+            it.sides[(gp, pp)] = gr
+            it.sides[(pp, ip)] = pr
+            args["par"], args["par_right"] = some(p), BoolV(pr)
+            args["grp"], args["grp_right"] = some(g), BoolV(gr)
+        else:
+            args["par"], args["grp"] = none(), none()
+        args["idx"] = idx
+        # depth bound: links of nodes `height` levels below idx are absent
+        def leaf_axiom(it_, tyi, name):
+            return None
+        it.depth_bound = (ar.name, "i", height)
+        return it.run_fn(path, [args[nm] for nm, _, _ in params])
+    return prog
+
+
+def retain_paths(ctx, F):
+    """bounded-exhaustive exploration of _retain (shared by C04, C10, C15, C16, C20)"""
+    out = []
+    if "PrefixMap::_retain" not in F.short:
+        return out
+    variants = [("ctx", dict(height=2, with_context=True, both_grp_sides=(ctx.tier == "thorough"))),
+                ("root", dict(height=2, with_context=False))]
+    for tag, kw in variants:
+        key = (F.config, "_retain:" + tag)
+        if key not in ctx._paths:
+            ctx._paths[key] = absint.explore(F, None, None, {"loop_bound": 2, "inline_depth": 14},
+                                             program=retain_program(F, **kw), max_paths=100000)
+        out.append(("PrefixMap::_retain[%s]" % tag, ctx._paths[key]))
+    return out
+
+
+# ---------------------------------------------------------------- certificate walk
+def rel_of(p, a, b):
+    if a == b:
+        return "EQ"
+    if (a, b) in p.rels:
+        return p.rels[(a, b)]
+    if (b, a) in p.rels:
+        return {"EQ": "EQ", "SUP": "SUB", "SUB": "SUP", "DISJ": "DISJ"}[p.rels[(b, a)]]
+    return None
+
+
+def canon_prefix(table, key):
+    return "zero()" if key == "0" else "%s[%s].prefix" % (table, key)
+
+
+class Walk:
+    """What the facts examined on one path say about query q in the (pre-state) trie below `start`:
+    the chain of nodes covering q, the exact node, the valued covering nodes, and whether the end of the
+    chain is certified (the link on q's side is known absent / known not to cover q)."""
+
+    def __init__(self, p, table, start, q, start_covers=None):
+        init = {}
+        for k, v in p.inputs:
+            if k.startswith("opt:" + table + "[") and k.rsplit(".", 1)[-1] in ("value", "left", "right"):
+                key, field = k[len("opt:" + table + "["):].rsplit("].", 1)
+                init.setdefault(key, {}).setdefault(field, v)
+        child = {}
+        written = set()
+        for e in p.events:
+            if e.kind == "link_write" and e["table"] == table:
+                written.add((e["node"], e["side"]))
+            if e.kind == "link_known" and e["table"] == table and (e["node"], e["side"]) not in written:
+                child.setdefault((e["node"], e["side"]), e["child"])
+                init.setdefault(e["node"], {}).setdefault(e["side"], "S")
+        self.init = init
+        self.chain = []
+        self.exact = None
+        self.valued = []
+        self.certified = True
+        self.why = ""
+        self.end = None          # ("exact", X) | ("absent", X, side) | ("not-covering", X, side, child)
+        x = start
+        r0 = rel_of(p, canon_prefix(table, x), q)
+        self.start_rel = r0
+        if r0 not in ("EQ", "SUP"):
+            self.covers = False
+            return
+        self.covers = True
+        for _ in range(50):
+            self.chain.append(x)
+            st = init.get(x, {})
+            v = st.get("value")
+            if v == "S":
+                self.valued.append(x)
+            elif v is None:
+                self.value_unknown = x
+            r = rel_of(p, canon_prefix(table, x), q)
+            if r == "EQ":
+                self.exact = x
+                self.end = ("exact", x)
+                return
+            sd = p.sides.get((canon_prefix(table, x), q))
+            if sd is None:
+                self.certified = False
+                self.why = "the branch side of the query under node %s was never determined" % x
+                return
+            side = "right" if sd else "left"
+            ls = st.get(side)
+            if ls == "N":
+                self.end = ("absent", x, side)
+                return
+            if ls is None:
+                self.certified = False
+                self.why = "the %s link of node %s (the query's side) was never examined" % (side, x)
+                return
+            c = child.get((x, side))
+            rc = rel_of(p, canon_prefix(table, c), q)
+            if rc in ("EQ", "SUP"):
+                x = c
+                continue
+            if rc is None:
+                self.certified = False
+                self.why = "whether child %s covers the query was never examined" % c
+                return
+            self.end = ("not-covering", x, side, c, rc)
+            return
+
+    def value_known(self, x):
+        return self.init.get(x, {}).get("value") in ("S", "N")
